@@ -61,6 +61,7 @@ type world struct {
 	sigTab  map[string]tuple
 	junk    map[string]int
 	extraPk map[string]int // raw public keys outside k0..k3 -> atom
+	calls   int
 }
 
 func newWorld(c *hx.Ctx) *world {
@@ -174,6 +175,65 @@ func (w *world) senderTerm(s string) string {
 	return hx.App("SenderOf", hx.Nat(w.keyAtom(raw)))
 }
 
+// ---------------------------------------------------------------- argument integrity helpers
+
+// spare returns a copy of b that is a sub-slice of a larger buffer (spare
+// capacity before and after, filled with a sentinel) and the whole buffer.
+func spare(b []byte) (sub, whole []byte) {
+	if b == nil {
+		return nil, nil
+	}
+	whole = bytes.Repeat([]byte{0xA5}, len(b)+16)
+	copy(whole[5:], b)
+	return whole[5 : 5+len(b)], whole
+}
+
+// intact reports whether the sentinel bytes around the sub-slice are untouched and the content equals want.
+func intact(whole, want []byte) bool {
+	if whole == nil {
+		return true
+	}
+	for i := 0; i < 5; i++ {
+		if whole[i] != 0xA5 {
+			return false
+		}
+	}
+	for i := 5 + len(want); i < len(whole); i++ {
+		if whole[i] != 0xA5 {
+			return false
+		}
+	}
+	return bytes.Equal(whole[5:5+len(want)], want)
+}
+
+func sameMsg(a, b *peer.SignedMsg) bool {
+	if (a.Signature == nil) != (b.Signature == nil) {
+		return false
+	}
+	return a.FromPeerId == b.FromPeerId && bytes.Equal(a.Data, b.Data) &&
+		bytes.Equal(a.GetSignature().GetPubKey(), b.GetSignature().GetPubKey()) &&
+		bytes.Equal(a.GetSignature().GetSigData(), b.GetSignature().GetSigData()) &&
+		a.GetSignature().GetHashType() == b.GetSignature().GetHashType()
+}
+
+// spareMsg rebuilds m with every byte field living inside a larger buffer.
+func spareMsg(m *peer.SignedMsg) (*peer.SignedMsg, [][2][]byte) {
+	o := &peer.SignedMsg{FromPeerId: m.FromPeerId}
+	var bufs [][2][]byte
+	put := func(b []byte) []byte {
+		sub, whole := spare(b)
+		bufs = append(bufs, [2][]byte{whole, clone(b)})
+		return sub
+	}
+	o.Data = put(m.Data)
+	if m.Signature != nil {
+		o.Signature = &peer.Signature{HashType: m.Signature.HashType}
+		o.Signature.PubKey = put(m.Signature.PubKey)
+		o.Signature.SigData = put(m.Signature.SigData)
+	}
+	return o, bufs
+}
+
 // ---------------------------------------------------------------- running ExtractAndVerify
 
 type evRes struct {
@@ -185,7 +245,37 @@ type evRes struct {
 	pv       any
 }
 
+// extractAndVerify runs the implementation, checks that no argument was
+// modified, and every few calls repeats the call on buffers with spare capacity.
 func (w *world) extractAndVerify(m *peer.SignedMsg, ctx []byte) evRes {
+	before := cloneMsg(m)
+	r := w.extractAndVerify1(m, ctx)
+	w.calls++
+	d := map[string]any{"kind": "ExtractAndVerify", "from_peer_id": before.FromPeerId, "data_hex": hx.Hex(before.Data),
+		"sig_data_hex": hx.Hex(before.GetSignature().GetSigData()), "sig_hash_type": int32(before.GetSignature().GetHashType()),
+		"sig_pub_key_hex": hx.Hex(before.GetSignature().GetPubKey()), "verify_context_hex": hx.Hex(ctx)}
+	if !sameMsg(before, m) {
+		w.c.Failf("c01-argument-modified", d, "ExtractAndVerify modified the message it was called on")
+	}
+	if w.calls%3 == 0 && r.cls != 99 {
+		m2, bufs := spareMsg(before)
+		r2 := w.extractAndVerify1(m2, ctx)
+		r3 := w.extractAndVerify1(m2, ctx)
+		w.c.Eval()
+		w.c.Eval()
+		if r2.cls != r.cls || r2.key != r.key || r3.cls != r.cls || r3.key != r.key || r2.id != r.id || r3.id != r.id {
+			w.c.Failf("c01-repeated-call-differs", d, "repeating ExtractAndVerify on the same message (buffers with spare capacity) gave class %d/%d key %d/%d instead of %d/%d", r2.cls, r3.cls, r2.key, r3.key, r.cls, r.key)
+		}
+		for _, b := range bufs {
+			if !intact(b[0], b[1]) {
+				w.c.Failf("c01-argument-modified", d, "ExtractAndVerify wrote to a message buffer or beyond its length")
+			}
+		}
+	}
+	return r
+}
+
+func (w *world) extractAndVerify1(m *peer.SignedMsg, ctx []byte) evRes {
 	var r evRes
 	panicked, pv := hx.Catch(func() { r.pub, r.id, r.err = m.ExtractAndVerify(string(ctx)) })
 	if panicked {
@@ -647,7 +737,24 @@ func c01(c *hx.Ctx, w *world) {
 		}
 		var dm *peer.SignedMsg
 		var derr error
+		wireBefore := clone(wire)
 		panicked, pv := hx.Catch(func() { dm, derr = peer.UnmarshalSignedMsg(wire) })
+		if !bytes.Equal(wire, wireBefore) {
+			c.Failf("c01-argument-modified", map[string]any{"kind": "UnmarshalSignedMsg", "wire_hex": hx.Hex(wireBefore)}, "UnmarshalSignedMsg modified its input")
+		}
+		if !panicked && i%2 == 0 {
+			sub, whole := spare(wireBefore)
+			var dm2 *peer.SignedMsg
+			var derr2 error
+			p2, _ := hx.Catch(func() { dm2, derr2 = peer.UnmarshalSignedMsg(sub) })
+			c.Eval()
+			if p2 || (derr == nil) != (derr2 == nil) || (derr == nil && !sameMsg(dm, dm2)) {
+				c.Failf("c01-repeated-call-differs", map[string]any{"kind": "UnmarshalSignedMsg", "wire_hex": hx.Hex(wireBefore)}, "decoding the same bytes from a buffer with spare capacity gave a different result")
+			}
+			if whole != nil && !intact(whole, wireBefore) {
+				c.Failf("c01-argument-modified", map[string]any{"kind": "UnmarshalSignedMsg", "wire_hex": hx.Hex(wireBefore)}, "UnmarshalSignedMsg wrote to its input buffer or beyond its length")
+			}
+		}
 		if panicked {
 			desc := map[string]any{"kind": "UnmarshalSignedMsg", "how": how, "wire_hex": hx.Hex(wire)}
 			c.Case(hx.App("Wire", "false", hx.Bytes(ctx), "SenderEmpty", "PubNone", "0", "SigNone", "[]", hx.Nat(99), hx.Nat(0)), desc)
@@ -702,7 +809,20 @@ func c02(c *hx.Ctx, w *world) {
 		incl := c.Rng.Intn(2) == 0
 		var s *peer.Signature
 		var err error
-		panicked, pv := hx.Catch(func() { s, err = peer.NewSignature(string(t.ctx), w.privs[t.k], t.ht, t.data, incl) })
+		dsub, dwhole := spare(t.data)
+		privRawBefore, _ := w.privs[t.k].Raw()
+		panicked, pv := hx.Catch(func() { s, err = peer.NewSignature(string(t.ctx), w.privs[t.k], t.ht, dsub, incl) })
+		privRawAfter, _ := w.privs[t.k].Raw()
+		if !intact(dwhole, t.data) || !bytes.Equal(privRawBefore, privRawAfter) {
+			c.Failf("c02-argument-modified", map[string]any{"kind": "NewSignature", "tuple": t.String()}, "NewSignature modified its data argument (or wrote beyond it) or the private key")
+		}
+		if !panicked && err == nil {
+			s2, err2 := peer.NewSignature(string(t.ctx), w.privs[t.k], t.ht, t.data, incl)
+			c.Eval()
+			if err2 != nil || !bytes.Equal(s2.GetSigData(), s.GetSigData()) || !bytes.Equal(s2.GetPubKey(), s.GetPubKey()) {
+				c.Failf("c02-repeated-call-differs", map[string]any{"kind": "NewSignature", "tuple": t.String()}, "two NewSignature calls with identical inputs produced different signature objects")
+			}
+		}
 		cls := 0
 		if panicked {
 			cls = 99
@@ -805,7 +925,33 @@ func c02(c *hx.Ctx, w *world) {
 		}
 		var ok bool
 		var err error
-		panicked, pv := hx.Catch(func() { ok, err = s.VerifyWithPublic(string(v.ctx), w.pubs[v.k], v.data) })
+		sBefore := &peer.Signature{PubKey: clone(s.PubKey), HashType: s.HashType, SigData: clone(s.SigData)}
+		dataArg := clone(v.data)
+		pubRawBefore, _ := w.pubs[v.k].Raw()
+		pubRawBefore = clone(pubRawBefore)
+		panicked, pv := hx.Catch(func() { ok, err = s.VerifyWithPublic(string(v.ctx), w.pubs[v.k], dataArg) })
+		argd := map[string]any{"kind": "VerifyWithPublic", "verified_against": v.String(), "sig_data_hex": hx.Hex(sBefore.SigData), "sig_hash_type": int32(sBefore.HashType)}
+		pubRawAfter, _ := w.pubs[v.k].Raw()
+		if !bytes.Equal(dataArg, v.data) || !bytes.Equal(s.SigData, sBefore.SigData) || !bytes.Equal(s.PubKey, sBefore.PubKey) || s.HashType != sBefore.HashType || !bytes.Equal(pubRawAfter, pubRawBefore) {
+			c.Failf("c02-argument-modified", argd, "VerifyWithPublic modified its data argument, the signature object or the public key")
+		}
+		if !panicked && i%3 == 0 {
+			dsub, dwhole := spare(v.data)
+			ssub, swhole := spare(sBefore.SigData)
+			s2 := &peer.Signature{PubKey: clone(sBefore.PubKey), HashType: sBefore.HashType, SigData: ssub}
+			for rep := 0; rep < 2; rep++ {
+				var ok2 bool
+				var err2 error
+				p2, _ := hx.Catch(func() { ok2, err2 = s2.VerifyWithPublic(string(v.ctx), w.pubs[v.k], dsub) })
+				c.Eval()
+				if p2 || ok2 != ok || (err2 == nil) != (err == nil) {
+					c.Failf("c02-repeated-call-differs", argd, "repeating VerifyWithPublic on the same inputs (buffers with spare capacity) gave ok=%v err=%v instead of ok=%v err=%v", ok2, err2, ok, err)
+				}
+			}
+			if !intact(dwhole, v.data) || !intact(swhole, sBefore.SigData) {
+				c.Failf("c02-argument-modified", argd, "VerifyWithPublic wrote to an argument buffer or beyond its length")
+			}
+		}
 		obs := 0
 		switch {
 		case panicked:
@@ -880,7 +1026,19 @@ func c02(c *hx.Ctx, w *world) {
 			sp = nil
 			s = &peer.Signature{}
 		}
+		vBefore := &peer.Signature{PubKey: clone(s.PubKey), HashType: s.HashType, SigData: clone(s.SigData)}
 		panicked, pv := hx.Catch(func() { err = sp.Validate() })
+		if !bytes.Equal(vBefore.PubKey, s.PubKey) || !bytes.Equal(vBefore.SigData, s.SigData) || vBefore.HashType != s.HashType {
+			c.Failf("c02-argument-modified", map[string]any{"kind": "Signature.Validate", "sig_data_hex": hx.Hex(vBefore.SigData)}, "Validate modified the signature object")
+		}
+		if !panicked {
+			var err2 error
+			p2, _ := hx.Catch(func() { err2 = sp.Validate() })
+			c.Eval()
+			if p2 || (err2 == nil) != (err == nil) {
+				c.Failf("c02-repeated-call-differs", map[string]any{"kind": "Signature.Validate", "sig_data_hex": hx.Hex(vBefore.SigData)}, "a second Validate call gave a different answer")
+			}
+		}
 		obs := 0
 		switch {
 		case panicked:
